@@ -45,6 +45,9 @@ MAP = [
     ('a stale setCodeVersion request', ['C17']),
     ('a node whose code lacks the enabled version', ['C17']),
     ('a full notification pipe', ['C19']),
+    ('a re-elected leader restarts snapshot transfers', ['C09']),
+    ('a snapshot child still running', ['C06', 'C09']),
+    ('a removed member no longer counts as connected', ['C20', 'C07']),
 ]
 
 
